@@ -687,6 +687,16 @@ func (g *patGen) keyExpr() string {
 		g.tag("key:probe")
 		return g.probe(`"` + g.keyName() + `"`)
 	case 3:
+		if !g.decl {
+			// Not in assignment patterns: esbuild prints the computed key `["a"]` as `a` (same meaning), and V8
+			// deviates from the specification for exactly that spelling: when such a pattern is applied to
+			// null / undefined, V8 evaluates the operands of a member target under a plain key
+			// (`({ a: o[f()] } = undefined)` calls f, then throws) but not under a computed key
+			// (`({ ["a"]: o[f()] } = undefined)` throws at once, as the specification demands for both;
+			// checked on Node 18 / 20 / 22). An engine quirk, not something esbuild has to reproduce.
+			g.tag("key:probe")
+			return g.probe(`"` + g.keyName() + `"`)
+		}
 		g.tag("key:string")
 		return `"` + g.keyName() + `"`
 	case 4:
